@@ -365,190 +365,7 @@ func propC14(r *Run, w *World) {
 	r.UseFn(fnName(parse), fnName(newSet), fnName(validate))
 
 	// R1
-	r.Rule("C14.R1", "the whole argument is matched: a Set that takes its result from FindStringSubmatch uses a pattern anchored at both ends in which everything outside the capture groups matches only whitespace; a non-match is an error; LHS, Comparator, RHS are groups 1, 2, 3", 4)
-	for _, fn := range w.PkgFuncs("flags") {
-		for _, c := range callsNamedIn(fn, "(*regexp.Regexp).FindStringSubmatch") {
-			call := c.(*ssa.Call)
-			ld, ok := call.Call.Args[0].(*ssa.UnOp)
-			var globs []*ssa.Global
-			if ok {
-				if g, isG := ld.X.(*ssa.Global); isG {
-					globs = append(globs, g)
-				} else if fa, isFA := ld.X.(*ssa.FieldAddr); isFA {
-					// the regexp is carried in a struct field: every value stored to that field
-					// in the package must be one of the package-level patterns, and each is checked
-					fv := fieldOfAddr(fa)
-					okAll := true
-					var scan func(f *ssa.Function)
-					scan = func(f *ssa.Function) {
-						instrsOf(f, func(in ssa.Instruction) {
-							st, isSt := in.(*ssa.Store)
-							if !isSt {
-								return
-							}
-							sfa, isF := st.Addr.(*ssa.FieldAddr)
-							if !isF || fieldOfAddr(sfa) != fv {
-								return
-							}
-							if sld, isLd := st.Val.(*ssa.UnOp); isLd && sld.Op == token.MUL {
-								if g, isG := sld.X.(*ssa.Global); isG {
-									for _, have := range globs {
-										if have == g {
-											return
-										}
-									}
-									globs = append(globs, g)
-									return
-								}
-							}
-							okAll = false
-						})
-						for _, af := range f.AnonFuncs {
-							scan(af)
-						}
-					}
-					for _, pf := range w.PkgFuncs("flags") {
-						scan(pf)
-					}
-					if !okAll {
-						globs = nil
-					}
-				}
-			}
-			if len(globs) == 0 {
-				r.Undecided(fnName(fn)+" pattern", call.Pos(), "the regexp is not a package-level variable (or a field that only ever holds package-level patterns)")
-				continue
-			}
-			for _, g := range globs {
-				pat, pos, err := w.regexpVarPattern("flags", g.Name())
-				if err != nil {
-					r.Anchor(err)
-					continue
-				}
-				sh, err := analyseRegexp(pat)
-				if err != nil {
-					r.Fail(g.Name()+" compiles", pos, "constant pattern does not compile (MustCompile panics at init): "+err.Error())
-					continue
-				}
-				var why []string
-				if !sh.AnchoredStart {
-					why = append(why, "not anchored at the start (leading junk is accepted and ignored)")
-				}
-				if !sh.AnchoredEnd {
-					why = append(why, "not anchored at the end (a value is cut at the first character the last group cannot match; the rest is ignored)")
-				}
-				if !sh.OutsideWhitespaceOnly {
-					why = append(why, "text outside the capture groups can be non-whitespace: "+sh.OutsideDetail)
-				}
-				r.Check(len(why) == 0, g.Name()+" matches the whole argument", pos, pat, fmt.Sprintf("pattern %q: %s", pat, strings.Join(why, "; ")))
-				// leftmost-first alternation: a literal alternative that is a proper prefix of a later one hides it
-				for gi, alts := range literalAlternations(pat) {
-					hidden := ""
-					for i := 0; i < len(alts); i++ {
-						for j := i + 1; j < len(alts); j++ {
-							if len(alts[i]) < len(alts[j]) && strings.HasPrefix(alts[j], alts[i]) {
-								hidden = fmt.Sprintf("%q is tried before %q", alts[i], alts[j])
-							}
-						}
-					}
-					r.Check(hidden == "", fmt.Sprintf("%s group %d alternation order", g.Name(), gi), pos, strings.Join(alts, " "), fmt.Sprintf("pattern %q, group %d: %s and always wins (Go tries alternatives left to right), so the longer operator is split: its tail becomes part of the value", pat, gi, hidden))
-				}
-				// the value starts right after the operator: nothing (not even optional whitespace) may be
-				// matched between group 2 and group 3, or leading spaces of a value would be dropped; for
-				// -F the value group must also run to the end anchor and accept any character, or
-				// trailing text would be dropped or refused
-				adjacent := sh.AfterOperator != nil && sh.AfterOperator.Op == syntax.OpCapture && sh.AfterOperator.Cap == 3
-				r.Check(adjacent, g.Name()+" value follows the operator directly", pos, "", fmt.Sprintf("pattern %q: something is matched between the operator and the value group, so part of the text after the operator does not end up in the value", pat))
-				if g.Name() == "filterRegexp" {
-					toEnd := sh.AfterValue != nil && sh.AfterValue.Op == syntax.OpEndText
-					anyPlus := false
-					if vg := sh.ValueGroup; vg != nil && len(vg.Sub) == 1 {
-						b := vg.Sub[0]
-						anyPlus = b.Op == syntax.OpPlus && len(b.Sub) == 1 && (b.Sub[0].Op == syntax.OpAnyCharNotNL || b.Sub[0].Op == syntax.OpAnyChar)
-					}
-					r.Check(toEnd && anyPlus, g.Name()+" value is the rest of the argument", pos, "(.+)$", fmt.Sprintf("pattern %q: the value group is not `(.+)` immediately before the end anchor, so the value is not the complete text after the operator (whitespace at its edges is trimmed, or some values are refused)", pat))
-				}
-				// the operator group is a finite language: it must be exactly the operators the encoder
-				// knows (-F) or =, != (-C), and no string of an earlier alternative may be a proper
-				// prefix of a string of a later one (leftmost-first alternation would split the longer
-				// operator and push its tail into the value)
-				if ga, have := groupAlternatives(pat)[2]; !have || !ga.OK {
-					r.Undecided(g.Name()+" operator group", pos, fmt.Sprintf("pattern %q: the operator group is not a finite alternation of literals and character classes", pat))
-				} else {
-					lang := map[string]bool{}
-					hidden := ""
-					for i, ai := range ga.Alts {
-						for _, si := range ai {
-							lang[si] = true
-							for j := i + 1; j < len(ga.Alts); j++ {
-								for _, sj := range ga.Alts[j] {
-									if len(si) < len(sj) && strings.HasPrefix(sj, si) {
-										hidden = fmt.Sprintf("%q (alternative %d) is tried before %q (alternative %d)", si, i+1, sj, j+1)
-									}
-								}
-							}
-						}
-					}
-					r.Check(hidden == "", g.Name()+" operator alternatives ordered", pos, "", fmt.Sprintf("pattern %q: %s and always wins, so the longer operator is split: its tail becomes part of the value", pat, hidden))
-					want := map[string]bool{"=": true, "!=": true}
-					if g.Name() == "filterRegexp" {
-						want = map[string]bool{}
-						if ents, _, _, err := w.MapLit("rule", "operatorsTable"); err == nil {
-							for _, e := range ents {
-								want[e.KeyStr()] = true
-							}
-						}
-					}
-					var extra, missing []string
-					for k := range lang {
-						if !want[k] {
-							extra = append(extra, k)
-						}
-					}
-					for k := range want {
-						if !lang[k] {
-							missing = append(missing, k)
-						}
-					}
-					sort.Strings(extra)
-					sort.Strings(missing)
-					r.Check(len(extra) == 0 && len(missing) == 0 && len(want) > 0, g.Name()+" operator set", pos, fmt.Sprintf("%d operators", len(want)),
-						fmt.Sprintf("pattern %q: the operator group accepts %q that the encoder does not know, and does not accept %q", pat, extra, missing))
-				}
-				// a non-match is an error; groups wired in order
-				undo := alias(call, "m")
-				want := fmt.Sprintf("len(m) == %d", sh.Groups+1)
-				fields := map[string]string{}
-				okGuard := true
-				for _, st := range storesOf(fn) {
-					t := AddrTerm(st.Addr)
-					// the three parts are stored into the receiver, or into the FilterSpec that is
-					// appended to the receiver's list
-					if i := strings.LastIndex(t, "."); i >= 0 && !strings.HasPrefix(t, "p0.") {
-						switch t[i+1:] {
-						case "LHS", "Comparator", "RHS":
-							t = "p0." + t[i+1:]
-						}
-					}
-					if strings.HasPrefix(t, "p0.") {
-						fields[strings.TrimPrefix(t, "p0.")] = TermAt(st.Val, st.Block())
-						if strings.HasPrefix(TermAt(st.Val, st.Block()), "m[") && !HoldsAt(st.Block(), want) {
-							okGuard = false
-						}
-					}
-				}
-				okErr := false
-				for _, ret := range retEdges(fn) {
-					if ret.Holds(NegLit(want)) && !isNilConst(ret.Results[0]) {
-						okErr = true
-					}
-				}
-				r.Check(okGuard && okErr && fields["LHS"] == "m[1]" && fields["Comparator"] == "m[2]" && fields["RHS"] == "m[3]" && sh.Groups == 3,
-					fnName(fn)+" uses groups 1,2,3 under len == 4", fn.Pos(), "", fmt.Sprintf("Set wires %v (groups=%d); a failed match must return an error", fields, sh.Groups))
-				undo()
-			}
-		}
-	}
+	flagPatterns(r, w, "C14.R1")
 
 	// R2
 	r.Rule("C14.R2", "no stray words: in Parse, after flagSet.Parse succeeds, the remaining positional arguments are inspected (NArg/Args) and a non-empty remainder returns an error before a rule is returned", 1)
@@ -1064,4 +881,196 @@ func mentionsReceiverState(cond ssa.Value) bool {
 		}
 	}
 	return false
+}
+
+// flagPatterns decides the clauses about the -F/-C patterns (C14.R1). The rule encoder and the
+// decoder's round trip go through flags.Parse as well: a value that is not taken verbatim, or an
+// operator that is split, changes the bytes Build produces (C06.R9) and what a listing re-encodes
+// to (C07.R9).
+func flagPatterns(r *Run, w *World, ruleID string) {
+	r.Rule(ruleID, "the whole argument is matched: a Set that takes its result from FindStringSubmatch uses a pattern anchored at both ends in which everything outside the capture groups matches only whitespace; a non-match is an error; LHS, Comparator, RHS are groups 1, 2, 3", 4)
+	for _, fn := range w.PkgFuncs("flags") {
+		for _, c := range callsNamedIn(fn, "(*regexp.Regexp).FindStringSubmatch") {
+			call := c.(*ssa.Call)
+			ld, ok := call.Call.Args[0].(*ssa.UnOp)
+			var globs []*ssa.Global
+			if ok {
+				if g, isG := ld.X.(*ssa.Global); isG {
+					globs = append(globs, g)
+				} else if fa, isFA := ld.X.(*ssa.FieldAddr); isFA {
+					// the regexp is carried in a struct field: every value stored to that field
+					// in the package must be one of the package-level patterns, and each is checked
+					fv := fieldOfAddr(fa)
+					okAll := true
+					var scan func(f *ssa.Function)
+					scan = func(f *ssa.Function) {
+						instrsOf(f, func(in ssa.Instruction) {
+							st, isSt := in.(*ssa.Store)
+							if !isSt {
+								return
+							}
+							sfa, isF := st.Addr.(*ssa.FieldAddr)
+							if !isF || fieldOfAddr(sfa) != fv {
+								return
+							}
+							if sld, isLd := st.Val.(*ssa.UnOp); isLd && sld.Op == token.MUL {
+								if g, isG := sld.X.(*ssa.Global); isG {
+									for _, have := range globs {
+										if have == g {
+											return
+										}
+									}
+									globs = append(globs, g)
+									return
+								}
+							}
+							okAll = false
+						})
+						for _, af := range f.AnonFuncs {
+							scan(af)
+						}
+					}
+					for _, pf := range w.PkgFuncs("flags") {
+						scan(pf)
+					}
+					if !okAll {
+						globs = nil
+					}
+				}
+			}
+			if len(globs) == 0 {
+				r.Undecided(fnName(fn)+" pattern", call.Pos(), "the regexp is not a package-level variable (or a field that only ever holds package-level patterns)")
+				continue
+			}
+			for _, g := range globs {
+				pat, pos, err := w.regexpVarPattern("flags", g.Name())
+				if err != nil {
+					r.Anchor(err)
+					continue
+				}
+				sh, err := analyseRegexp(pat)
+				if err != nil {
+					r.Fail(g.Name()+" compiles", pos, "constant pattern does not compile (MustCompile panics at init): "+err.Error())
+					continue
+				}
+				var why []string
+				if !sh.AnchoredStart {
+					why = append(why, "not anchored at the start (leading junk is accepted and ignored)")
+				}
+				if !sh.AnchoredEnd {
+					why = append(why, "not anchored at the end (a value is cut at the first character the last group cannot match; the rest is ignored)")
+				}
+				if !sh.OutsideWhitespaceOnly {
+					why = append(why, "text outside the capture groups can be non-whitespace: "+sh.OutsideDetail)
+				}
+				r.Check(len(why) == 0, g.Name()+" matches the whole argument", pos, pat, fmt.Sprintf("pattern %q: %s", pat, strings.Join(why, "; ")))
+				// leftmost-first alternation: a literal alternative that is a proper prefix of a later one hides it
+				for gi, alts := range literalAlternations(pat) {
+					hidden := ""
+					for i := 0; i < len(alts); i++ {
+						for j := i + 1; j < len(alts); j++ {
+							if len(alts[i]) < len(alts[j]) && strings.HasPrefix(alts[j], alts[i]) {
+								hidden = fmt.Sprintf("%q is tried before %q", alts[i], alts[j])
+							}
+						}
+					}
+					r.Check(hidden == "", fmt.Sprintf("%s group %d alternation order", g.Name(), gi), pos, strings.Join(alts, " "), fmt.Sprintf("pattern %q, group %d: %s and always wins (Go tries alternatives left to right), so the longer operator is split: its tail becomes part of the value", pat, gi, hidden))
+				}
+				// the value starts right after the operator: nothing (not even optional whitespace) may be
+				// matched between group 2 and group 3, or leading spaces of a value would be dropped; for
+				// -F the value group must also run to the end anchor and accept any character, or
+				// trailing text would be dropped or refused
+				adjacent := sh.AfterOperator != nil && sh.AfterOperator.Op == syntax.OpCapture && sh.AfterOperator.Cap == 3
+				r.Check(adjacent, g.Name()+" value follows the operator directly", pos, "", fmt.Sprintf("pattern %q: something is matched between the operator and the value group, so part of the text after the operator does not end up in the value", pat))
+				if g.Name() == "filterRegexp" {
+					toEnd := sh.AfterValue != nil && sh.AfterValue.Op == syntax.OpEndText
+					anyPlus := false
+					if vg := sh.ValueGroup; vg != nil && len(vg.Sub) == 1 {
+						b := vg.Sub[0]
+						anyPlus = b.Op == syntax.OpPlus && len(b.Sub) == 1 && (b.Sub[0].Op == syntax.OpAnyCharNotNL || b.Sub[0].Op == syntax.OpAnyChar)
+					}
+					r.Check(toEnd && anyPlus, g.Name()+" value is the rest of the argument", pos, "(.+)$", fmt.Sprintf("pattern %q: the value group is not `(.+)` immediately before the end anchor, so the value is not the complete text after the operator (whitespace at its edges is trimmed, or some values are refused)", pat))
+				}
+				// the operator group is a finite language: it must be exactly the operators the encoder
+				// knows (-F) or =, != (-C), and no string of an earlier alternative may be a proper
+				// prefix of a string of a later one (leftmost-first alternation would split the longer
+				// operator and push its tail into the value)
+				if ga, have := groupAlternatives(pat)[2]; !have || !ga.OK {
+					r.Undecided(g.Name()+" operator group", pos, fmt.Sprintf("pattern %q: the operator group is not a finite alternation of literals and character classes", pat))
+				} else {
+					lang := map[string]bool{}
+					hidden := ""
+					for i, ai := range ga.Alts {
+						for _, si := range ai {
+							lang[si] = true
+							for j := i + 1; j < len(ga.Alts); j++ {
+								for _, sj := range ga.Alts[j] {
+									if len(si) < len(sj) && strings.HasPrefix(sj, si) {
+										hidden = fmt.Sprintf("%q (alternative %d) is tried before %q (alternative %d)", si, i+1, sj, j+1)
+									}
+								}
+							}
+						}
+					}
+					r.Check(hidden == "", g.Name()+" operator alternatives ordered", pos, "", fmt.Sprintf("pattern %q: %s and always wins, so the longer operator is split: its tail becomes part of the value", pat, hidden))
+					want := map[string]bool{"=": true, "!=": true}
+					if g.Name() == "filterRegexp" {
+						want = map[string]bool{}
+						if ents, _, _, err := w.MapLit("rule", "operatorsTable"); err == nil {
+							for _, e := range ents {
+								want[e.KeyStr()] = true
+							}
+						}
+					}
+					var extra, missing []string
+					for k := range lang {
+						if !want[k] {
+							extra = append(extra, k)
+						}
+					}
+					for k := range want {
+						if !lang[k] {
+							missing = append(missing, k)
+						}
+					}
+					sort.Strings(extra)
+					sort.Strings(missing)
+					r.Check(len(extra) == 0 && len(missing) == 0 && len(want) > 0, g.Name()+" operator set", pos, fmt.Sprintf("%d operators", len(want)),
+						fmt.Sprintf("pattern %q: the operator group accepts %q that the encoder does not know, and does not accept %q", pat, extra, missing))
+				}
+				// a non-match is an error; groups wired in order
+				undo := alias(call, "m")
+				want := fmt.Sprintf("len(m) == %d", sh.Groups+1)
+				fields := map[string]string{}
+				okGuard := true
+				for _, st := range storesOf(fn) {
+					t := AddrTerm(st.Addr)
+					// the three parts are stored into the receiver, or into the FilterSpec that is
+					// appended to the receiver's list
+					if i := strings.LastIndex(t, "."); i >= 0 && !strings.HasPrefix(t, "p0.") {
+						switch t[i+1:] {
+						case "LHS", "Comparator", "RHS":
+							t = "p0." + t[i+1:]
+						}
+					}
+					if strings.HasPrefix(t, "p0.") {
+						fields[strings.TrimPrefix(t, "p0.")] = TermAt(st.Val, st.Block())
+						if strings.HasPrefix(TermAt(st.Val, st.Block()), "m[") && !HoldsAt(st.Block(), want) {
+							okGuard = false
+						}
+					}
+				}
+				okErr := false
+				for _, ret := range retEdges(fn) {
+					if ret.Holds(NegLit(want)) && !isNilConst(ret.Results[0]) {
+						okErr = true
+					}
+				}
+				r.Check(okGuard && okErr && fields["LHS"] == "m[1]" && fields["Comparator"] == "m[2]" && fields["RHS"] == "m[3]" && sh.Groups == 3,
+					fnName(fn)+" uses groups 1,2,3 under len == 4", fn.Pos(), "", fmt.Sprintf("Set wires %v (groups=%d); a failed match must return an error", fields, sh.Groups))
+				undo()
+			}
+		}
+	}
+
 }
